@@ -330,11 +330,19 @@ class Ctx:
 
 
 def load_findings():
+    """known_findings.json plus (while checks are being built) known_findings.d/*.json"""
+    out = []
     p = os.path.join(ROOT, "known_findings.json")
-    if not os.path.exists(p):
-        return []
-    with open(p) as f:
-        return json.load(f)["findings"]
+    if os.path.exists(p):
+        with open(p) as f:
+            out.extend(json.load(f)["findings"])
+    d = os.path.join(ROOT, "known_findings.d")
+    if os.path.isdir(d):
+        for name in sorted(os.listdir(d)):
+            if name.endswith(".json"):
+                with open(os.path.join(d, name)) as f:
+                    out.extend(json.load(f)["findings"])
+    return out
 
 
 def load_known_ids(prop):
